@@ -112,32 +112,56 @@ def takeWPts : Nat → List String → Option (List (WPt Rat))
     | _, _, _ => none
   | _, _ => none
 
+def optNatsOut (l : List (Option Nat)) : String :=
+  " ".intercalate (toString l.length :: l.map fun o => match o with | some v => toString v | none => "-")
+
+def evsOut (l : List Ev) : String :=
+  " ".intercalate (toString l.length :: l.map fun ev =>
+    toString ev.fn ++ " " ++ toString ev.data ++ " " ++ toString ev.p0 ++ " " ++ toString ev.call)
+
+/-- final state of a protocol history, as the harness compares it: event log (oldest first), `_may_fit`,
+stored-pairs flags, versions, seen versions, `_fitted_conditioners`; then the inputs of the fits: epoch of the
+stored pairs, epoch of the last `_fit`'s pairs, `_p0` token, number of public calls, detailed events
+(function, data epoch, start-value token, call number; oldest first) -/
+def protoOut (N : Nat) (conds : Nat → List Nat) (s : Mut) : String :=
+  let idx := List.range N
+  let seen := idx.flatMap fun h => (conds h).map fun g => s.seen h g
+  "OK " ++ natsOut s.log.reverse ++ " " ++ maskStr (idx.map s.mayFit) ++ " " ++
+    maskStr (idx.map s.hasXY) ++ " " ++ natsOut (idx.map s.version) ++ " " ++ natsOut seen ++ " " ++
+    " ".intercalate (idx.map fun h => natsOut (s.fitted h)) ++ " " ++
+    optNatsOut (idx.map s.xyEpoch) ++ " " ++ optNatsOut (idx.map s.lastData) ++ " " ++
+    optNatsOut (idx.map s.p0At) ++ " " ++ toString s.calls ++ " " ++ evsOut s.evlog.reverse
+
+def protoRun (stale : Bool) (n : String) (rest : List String) : Option String :=
+  let N := nOfTok n
+  match takeNatLists N rest with
+  | none => some "ERR parse"
+  | some (decls, rest') =>
+    match takeNats rest' with
+    | none => some "ERR parse"
+    | some (fs, rest'') =>
+      match takeNats rest'' with
+      | none => some "ERR parse"
+      | some (es, _) =>
+        if !checkDecls decls then some "ERR badDecl"
+        else if !(fs.all fun f => decide (f < N)) then some "ERR badOp"
+        else if fs.length != es.length then some "ERR badEpochs"
+        else
+          let conds := condsOf decls
+          let ops := fs.zip es
+          some (protoOut N conds (if stale then runHistoryStale N conds ops else runHistory N conds ops))
+
 /-- ops:
-`proto N <N nat lists: conds> <nat list: fit calls>`
+`proto N <N nat lists: conds> <nat list: fit calls> <nat list: data epochs of the calls>`
+`protostale …`  the same history on the seeded variant `fitCallStale` (diagnostics only)
 `cbounds k lo hi …`
 `dispatch <bounds|-> <constraint ids|-> <p0 floats> <weights floats|->`
 `lsqcert n m (sigma|- y row…)… x_1 … x_n (rationals)`   normal-equation certificate at `Rat`
 `affine m (sigma|- x y)…`                                closed form at `Rat` -/
 def handleC14 : Handler := fun _ toks =>
   match toks with
-  | "proto" :: n :: rest =>
-    let N := nOfTok n
-    match takeNatLists N rest with
-    | none => some "ERR parse"
-    | some (decls, rest') =>
-      match takeNats rest' with
-      | none => some "ERR parse"
-      | some (ops, _) =>
-        if !checkDecls decls then some "ERR badDecl"
-        else if !(ops.all fun f => decide (f < N)) then some "ERR badOp"
-        else
-          let conds := condsOf decls
-          let s := runHistory N conds ops
-          let idx := List.range N
-          let seen := idx.flatMap fun h => (conds h).map fun g => s.seen h g
-          some ("OK " ++ natsOut s.log.reverse ++ " " ++ maskStr (idx.map s.mayFit) ++ " " ++
-            maskStr (idx.map s.hasXY) ++ " " ++ natsOut (idx.map s.version) ++ " " ++ natsOut seen ++ " " ++
-            " ".intercalate (idx.map fun h => natsOut (s.fitted h)))
+  | "proto" :: n :: rest => protoRun false n rest
+  | "protostale" :: n :: rest => protoRun true n rest
   | "cbounds" :: k :: rest =>
     match takeOptPairs (nOfTok k) rest with
     | none => some "ERR parse"
